@@ -1405,8 +1405,17 @@ class Linker:
         self.__pendingImports.update(module.Imports)
 
     def Link(self) -> Program:
-        # add all imported modules
-        for importedModule in self.__pendingImports:
-            self.AddModule(self.__loader.Load(importedModule))
+        # Add all imported modules, including the imports of imported
+        # modules. Every module is loaded exactly once, however many modules
+        # import it; the names are processed in sorted order so that the result
+        # does not depend on set iteration order
+        loaded = set()
+        while True:
+            pending = sorted(self.__pendingImports - loaded)
+            if not pending:
+                break
+            for importedModule in pending:
+                loaded.add(importedModule)
+                self.AddModule(self.__loader.Load(importedModule))
 
         return Program(self.__functions, self.__globals)
